@@ -200,7 +200,7 @@ def gen_scn(rng, idx, params):
             s = gen.tf_seconds(tf)
             step = max(1, s // rng.choice([1, 1, 2, 3, 5, 10]))
         ts_style = rng.choice(["regular", "dups", "gaps", "mixed"]) if fill else None
-        stream, smeta = gen.gen_stream(rng, n, ts_style=ts_style, step=step)
+        stream, smeta = gen.gen_stream(rng, n, price_style=gen.style_for(rng, kind), ts_style=ts_style, step=step)
         stream = [list(x) for x in stream]
         gaps = rng.random() < 0.5
         if gaps:
